@@ -644,3 +644,26 @@ Theorem C19_json_file_code_is_strip_raw_code : forall callee open stat st name,
   fn_NewMapsFromJsonFile callee open stat st name = PureG36.strip_raw (fn_NewMapsFromJsonFileRaw callee open stat st name).
 Proof. exact PureG36.json_file_code_is_strip_raw_code. Qed.
 Print Assumptions C19_json_file_code_is_strip_raw_code.
+
+(* ---- the file writers Maps.JsonFile[Indent] / Maps.XmlFile[Indent] (files.go), translated from the current sources (the files the
+   function creates are a hidden state; os.Create is an environment function): for ANY string form and ANY behaviour of os.Create -
+   an error of the string form or of Create is returned and no file is touched, otherwise the file is created with exactly the
+   string as its content: the model maps_file (GenProofs/PureG37.v) *)
+From Mxj Require GenProofs.PureG13 GenProofs.PureG37.
+
+Theorem C19_xml_file_code : forall (xs : list entries -> res str) create st mvs file fs,
+  fn_XmlFile xs create st mvs file fs = PureG37.file_writer_spec (xs mvs) create file fs.
+Proof. exact PureG37.xml_file_code. Qed.
+Print Assumptions C19_xml_file_code.
+
+Theorem C19_json_file_code : forall (js : list entries -> list bool -> res str) create st mvs file safe fs,
+  fn_JsonFile js create st mvs file safe fs = PureG37.file_writer_spec (js mvs [PureG13.opt_flag safe]) create file fs.
+Proof. exact PureG37.json_file_code. Qed.
+Print Assumptions C19_json_file_code.
+
+Theorem C19_file_writer_spec_is_maps_file : forall {M : Type} (enc : M -> option bytes) (indent_json : bool) (ms : list M) (sres : res str) (create : str -> res unit) (file : str) (fs : fslog) (creatable : bool),
+  sres = (let (x, err) := maps_string enc indent_json ms in if err then Err EOther else Ok x) ->
+  create file = (if creatable then Ok tt else Err EOther) ->
+  PureG37.writer_outcome (PureG37.file_writer_spec sres create file fs) file fs = Some (maps_file enc indent_json ms creatable).
+Proof. exact @PureG37.file_writer_spec_is_maps_file. Qed.
+Print Assumptions C19_file_writer_spec_is_maps_file.
